@@ -240,7 +240,7 @@ def run(ctx):
     ctx.cov['input_distribution'] = dict(per_arch_code_calls=dist, code_calls_that_converted=conv_count)
     ctx.cov['samples'] = [lines[0][:200], meta[3][2].hex()[:80]]
     ctx.cov['correspondence_mismatches'] = len(mism)
-    ctx.assumptions += ['x86, IA-64 and RISC-V round trips are not proved in Coq (explored + tied by correspondence); ARM/ARM-Thumb/PowerPC/SPARC/ARM64 word round trips and delta are proved',
+    ctx.assumptions += ['proved in Coq for all data: delta, ARM, ARM-Thumb, ARM64, PowerPC, SPARC, IA-64 round trips (aligned start offsets) and x86 (one call from the fresh filter state, data < 4 GiB); NOT proved (explored + tied by correspondence): the RISC-V round trip, x86 with state carried across several calls',
                         'simple_coder buffering protocol: explored under random slicing, not proved']
     if spec_bad:
         ctx.violation('Coq BCJ reference disagrees with released liblzma (model wrong, not the code)', spec_bad, found_input=False)
